@@ -88,6 +88,9 @@ HexMap == [x \in {"31", "61", "41", "2e", "e9", "3A", "3a"} |->
 IsIdentChar(c) == IsAlnum(c) \/ c \in {"_", "-"} \/ c \in {"é", "ü", "я"}
 MultiLabelSuffixesNote == "рф is a single-label public suffix"      \* non-ASCII letters of the universe
 
+RECURSIVE StripZeros(_)        \* '\\000061' is '\\61'
+StripZeros(ds) == IF Len(ds) > 1 /\ ds[1] = "0" THEN StripZeros(Tail(ds)) ELSE ds
+
 \* parse an identifier starting at position i of cs; returns [key, ok]: the unescaped
 \* identifier (ok = FALSE when an escape cannot be decoded with HexMap)
 RECURSIVE Ident(_, _)
@@ -100,7 +103,7 @@ Ident(cs, i) ==
         LET n == CHOOSE k \in 1..6 : /\ i + k <= Len(cs)
                                      /\ \A j \in 1..k : cs[i + j] \in HexDigits
                                      /\ (k = 6 \/ i + k = Len(cs) \/ cs[i + k + 1] \notin HexDigits)
-            hex == Str(Sub(cs, i + 1, i + n))
+            hex == Str(StripZeros(Sub(cs, i + 1, i + n)))
             skipWs == IF i + n < Len(cs) /\ cs[i + n + 1] = " " THEN 1 ELSE 0
             r == Ident(cs, i + n + 1 + skipWs) IN
         IF hex \in DOMAIN HexMap THEN [key |-> <<HexMap[hex]>> \o r.key, ok |-> r.ok]
